@@ -9,6 +9,7 @@ import (
 	"bytes"
 	"encoding/json"
 	"fmt"
+	"hash/fnv"
 	"html"
 	"io"
 	"math/rand"
@@ -1166,16 +1167,49 @@ func sortStrings(l []string) {
 	}
 }
 
+// Batch names a slice of the seeded stand-alone stream; it is the crash marker written before a
+// batch of (function-level, individually recovered) cases and can be replayed like a case.
+type Batch struct {
+	Seed  int64 `json:"seed"`
+	Shard int   `json:"shard"`
+	From  int   `json:"from"`
+	Count int   `json:"count"`
+}
+
+type batchCase struct {
+	Batch *Batch `json:"standalone_batch,omitempty"`
+}
+
+// streamRand reproduces mon.M.Rand for a given (seed, shard, stream).
+func streamRand(seed int64, shard int, name string) *rand.Rand {
+	h := fnv.New64a()
+	fmt.Fprintf(h, "%s|%d|%d|%s", "C20", seed, shard, name)
+	return rand.New(rand.NewSource(int64(h.Sum64() & 0x7fffffffffffffff)))
+}
+
+func runBatch(m *mon.M, b *Batch) {
+	r := streamRand(b.Seed, b.Shard, "standalone")
+	for i := 0; i < b.From+b.Count; i++ {
+		c := genStandalone(r)
+		if i >= b.From {
+			runCase(m, c)
+		}
+	}
+}
+
+const batchSize = 100
+
 func run(m *mon.M) {
 	r := m.Rand("standalone")
-	n := m.N(2500, 60000)
+	n := m.N(2500, 40000)
 	for i := 0; i < n; i++ {
-		c := genStandalone(r)
-		m.Begin(c)
-		runCase(m, c)
+		if i%batchSize == 0 {
+			m.Begin(&batchCase{Batch: &Batch{Seed: m.Seed, Shard: m.Shard, From: i, Count: batchSize}})
+		}
+		runCase(m, genStandalone(r))
 	}
 	ra := m.Rand("api")
-	na := m.N(150, 5000)
+	na := m.N(150, 3000)
 	for i := 0; i < na; i++ {
 		c := genAPI(ra)
 		m.Begin(c)
@@ -1184,6 +1218,11 @@ func run(m *mon.M) {
 }
 
 func replay(m *mon.M, raw json.RawMessage) {
+	var bc batchCase
+	if err := json.Unmarshal(raw, &bc); err == nil && bc.Batch != nil {
+		runBatch(m, bc.Batch)
+		return
+	}
 	var c Case
 	if err := json.Unmarshal(raw, &c); err != nil {
 		m.Violate("bad-replay-case", err.Error(), nil)
